@@ -3,8 +3,8 @@ CONSTANTS
   Repo = {1, 2}
   Persistent = {2}
   Capacity = 1
-  QueueMax = 1
-  MaxTasks = 2
+  QueueMax = 2
+  MaxTasks = 3
   MaxOps = 0
   Dev = {}
 SPECIFICATION LiveSpec
